@@ -203,7 +203,7 @@ func gen(args []string) {
 		}
 		return false
 	}
-	ctx := &genCtx{sw: sw, tier: *tier, rng: rng, st: st, statesPath: *states, walksPath: *walks, want: want}
+	ctx := &genCtx{sw: sw, tier: *tier, rng: rng, st: st, statesPath: *states, walksPath: *walks, want: want, outDir: *out, seed: *seed}
 	fn, ok := families[family]
 	if !ok {
 		fmt.Fprintln(os.Stderr, "unknown family", family)
@@ -231,6 +231,8 @@ type genCtx struct {
 	statesPath string
 	walksPath  string
 	want       func(string) bool
+	outDir     string
+	seed       int64
 }
 
 func (c *genCtx) thorough() bool { return c.tier == "thorough" }
